@@ -475,6 +475,9 @@ func cmdReload(args []string) error {
 	for c := 0; c < *nc/2; c++ {
 		rlRequestCase(r, c, dir, emit)
 	}
+	for c := 0; c < *nc/2; c++ {
+		rlTwinCase(r, c, dir, emit)
+	}
 	for c := 0; c < *nf; c++ {
 		rlFileCase(r, c, dir, emit, *crash)
 	}
@@ -563,7 +566,7 @@ func rlReloadCase(r *rng, c int, dir string, emit func(interface{})) {
 			_ = runRlProbes(rtA2, probes)
 			verifhook.Reset()
 			verifhook.Set("*", func(label string, hit int) {
-				if strings.HasPrefix(label, "reload.") {
+				if label == "state.write_unlocked" { // every instant at which the reload released the write lock
 					mids = append(mids, rlMid{Label: label, V: runRlProbes(rtA2, probes)})
 				}
 			})
@@ -578,6 +581,106 @@ func rlReloadCase(r *rng, c int, dir string, emit func(interface{})) {
 	base["mid"] = mids
 	emit(base)
 	_ = os.RemoveAll(cfgPath)
+}
+
+// A failed reload must leave *stateful* behaviour untouched too: two runtimes under the same configuration and clock
+// serve the same request script; one of them attempts a reload that fails in between. Their answers must be equal.
+func rlTwinCase(r *rng, c int, dir string, emit func(interface{})) {
+	kind := pick(r, []string{"unreadable", "parse", "compile", "secret", "secret", "restart"})
+	tolOld := pick(r, []int{2, 5})
+	tolNew := pick(r, []int{60, 300, 300, 1})
+	secretPath := filepath.Join(dir, fmt.Sprintf("twintok%d", c))
+	_ = os.WriteFile(secretPath, []byte("kb"), 0o600)
+	defer os.Remove(secretPath)
+	text := func(tol int, extra string) string {
+		return fmt.Sprintf("pull_api {\n  auth token raw:t\n%s}\n/ha {\n  auth hmac {\n    secret raw:ka\n    tolerance %ds\n  }\n  pull {\n    path /pull/ha\n  }\n}\n"+
+			"/rl {\n  rate_limit {\n    rps 0.0001\n    burst 3\n  }\n  pull {\n    path /pull/rl\n  }\n}\n"+
+			"/hb {\n  auth hmac {\n    secret \"file:%s\"\n  }\n  pull {\n    path /pull/hb\n  }\n}\n", extra, tol, secretPath)
+	}
+	oldText := text(tolOld, "")
+	newText := text(tolNew, "")
+	cfgPath := filepath.Join(dir, fmt.Sprintf("Hookaidofile.t%d", c))
+	switch kind {
+	case "parse":
+		newText += "\n/broken {\n  pull {\n"
+	case "compile":
+		newText += "\n/dup {\n  pull { path /pull/ha }\n}\n"
+	case "restart":
+		newText = text(tolNew, "  max_batch 7\n")
+	}
+	compiled, err := compileText(oldText)
+	if err != nil {
+		emit(map[string]interface{}{"k": "cfgerror", "stage": "twin", "err": err.Error(), "text": oldText})
+		return
+	}
+	clock := &fakeClock{now: 1_700_000_000_000_000_000 + int64(c)*int64(time.Hour)}
+	mk := func() (*app.VerifRuntime, *recStore) {
+		rt, err := app.VerifNewRuntime(compiled, clock.Now)
+		if err != nil {
+			return nil, nil
+		}
+		return rt, &recStore{Store: queue.NewMemoryStore(queue.WithNowFunc(clock.Now))}
+	}
+	rtU, stU := mk()
+	rtT, stT := mk()
+	if rtU == nil || rtT == nil {
+		return
+	}
+	send := func(rt *app.VerifRuntime, st *recStore, p string, nonce string, ts int64, secret string) string {
+		body := []byte("payload")
+		req := httptest.NewRequest("POST", "http://ex"+p, bytes.NewReader(body))
+		if secret != "" {
+			tss := fmt.Sprint(ts)
+			req.Header.Set("X-Timestamp", tss)
+			req.Header.Set("X-Nonce", nonce)
+			req.Header.Set("X-Signature", signIngress([]byte(secret), tss, "POST", p, body))
+		}
+		rr := httptest.NewRecorder()
+		rt.IngressServer(st).ServeHTTP(rr, req)
+		return fmt.Sprintf("%d[%s]", rr.Code, st.take())
+	}
+	var outU, outT []string
+	both := func(p, nonce string, ts int64, secret string) {
+		outU = append(outU, send(rtU, stU, p, nonce, ts, secret))
+		outT = append(outT, send(rtT, stT, p, nonce, ts, secret))
+	}
+	t0 := clock.now / int64(time.Second)
+	both("/ha", "n1", t0, "ka")
+	both("/hb", "m1", t0, "kb")
+	both("/rl", "", 0, "")
+	both("/rl", "", 0, "")
+	switch kind {
+	case "unreadable":
+		_ = os.Mkdir(cfgPath, 0o755)
+	default:
+		_ = os.WriteFile(cfgPath, []byte(newText), 0o600)
+	}
+	if kind == "secret" {
+		_ = os.Remove(secretPath)
+	}
+	attempts := 1 + r.intn(2)
+	ok := false
+	for i := 0; i < attempts; i++ {
+		ok = rtT.Reload(cfgPath) || ok
+	}
+	_ = os.RemoveAll(cfgPath)
+	clock.now += int64(tolOld+3) * int64(time.Second)
+	t1 := clock.now / int64(time.Second)
+	both("/ha", "n1", t1, "ka") // the nonce again after its window closed
+	both("/ha", "n1", t0, "ka") // the captured request itself
+	both("/ha", "n2", t1, "ka")
+	both("/ha", "n2", t1, "ka") // immediate replay
+	both("/hb", "m1", t1, "kb")
+	both("/hb", "m2", t1, "kb")
+	for i := 0; i < 3; i++ {
+		both("/rl", "", 0, "")
+	}
+	clock.now += int64(tolNew+3) * int64(time.Second)
+	t2 := clock.now / int64(time.Second)
+	both("/ha", "n1", t2, "ka")
+	both("/ha", "n2", t2, "ka")
+	emit(map[string]interface{}{"k": "twin", "case": c, "fail": kind, "ok": ok, "attempts": attempts, "tolOld": tolOld, "tolNew": tolNew,
+		"u": outU, "t": outT, "oldText": oldText, "newText": newText})
 }
 
 // one ingress request held between two accessor calls while a complete reload runs: every ingress probe at every gate
@@ -710,7 +813,8 @@ func rlFileCase(r *rng, c int, root string, emit func(interface{}), crash bool) 
 	a.GlobalBurst = 0
 	b := mutateRlSpec(r, a)
 	oldText, newText := a.text(), b.text()
-	variant := pick(r, []string{"app.raw", "mcp.write_only", "mcp.reload_ok", "mcp.reload_fail", "mcp.invalid", "mgmt.upsert", "mgmt.upsert_reload_fail", "mgmt.delete", "app.raw_new"})
+	variant := pick(r, []string{"app.raw", "mcp.write_only", "mcp.reload_ok", "mcp.reload_fail", "mcp.invalid", "mgmt.upsert", "mgmt.upsert_reload_fail", "mgmt.delete",
+		"mgmt.delete_validate_fail", "mgmt.move", "mgmt.move_validate_fail", "app.raw_new"})
 	base := map[string]interface{}{"k": "file", "case": c, "variant": variant, "old": oldText}
 	if variant == "app.raw_new" {
 		base["old"] = nil
@@ -780,7 +884,7 @@ func rlFileCase(r *rng, c int, root string, emit func(interface{}), crash bool) 
 		default:
 			outcome = "rejected"
 		}
-	case "mgmt.upsert", "mgmt.upsert_reload_fail", "mgmt.delete":
+	case "mgmt.upsert", "mgmt.upsert_reload_fail", "mgmt.delete", "mgmt.delete_validate_fail", "mgmt.move", "mgmt.move_validate_fail":
 		secretPath := filepath.Join(root, fmt.Sprintf("ftok%d", c))
 		if variant == "mgmt.upsert_reload_fail" {
 			_ = os.WriteFile(secretPath, []byte(a.PullTok), 0o600)
@@ -788,7 +892,8 @@ func rlFileCase(r *rng, c int, root string, emit func(interface{}), crash bool) 
 			oldText = a.text()
 			base["old"] = oldText
 		}
-		if variant == "mgmt.delete" {
+		labelled := variant != "mgmt.upsert" && variant != "mgmt.upsert_reload_fail"
+		if labelled { // the endpoint app1/ep1 already exists on the first route
 			oldText = strings.Replace(oldText, a.Routes[0].Path+" {\n", a.Routes[0].Path+" {\n  application app1\n  endpoint_name ep1\n", 1)
 			base["old"] = oldText
 		}
@@ -802,14 +907,59 @@ func rlFileCase(r *rng, c int, root string, emit func(interface{}), crash bool) 
 		if variant == "mgmt.upsert_reload_fail" {
 			_ = os.Remove(secretPath)
 		}
+		// what the running process answers for the managed endpoint: an endpoint-scoped publish (status, code, route reached)
+		live := func() string {
+			rlNonce++
+			st := &recStore{Store: queue.NewMemoryStore()}
+			req := httptest.NewRequest("POST", "http://ex/applications/app1/endpoints/ep1/messages/publish",
+				strings.NewReader(fmt.Sprintf(`{"items":[{"id":"live%d","payload_b64":"eA=="}]}`, rlNonce)))
+			req.Header.Set("X-Hookaido-Audit-Reason", "verif")
+			for _, t := range []string{"atokA", "atokB"} {
+				if rt.AuthorizeAdmin(withBearer(t)) {
+					req.Header.Set("Authorization", "Bearer "+t)
+				}
+			}
+			rr := httptest.NewRecorder()
+			mem := queue.NewMemoryStore()
+			rt.AdminServer(mem).ServeHTTP(rr, req)
+			var resp struct {
+				Code string `json:"code"`
+			}
+			_ = json.Unmarshal(rr.Body.Bytes(), &resp)
+			routes := []string{}
+			if l, err := mem.ListMessages(queue.MessageListRequest{Limit: 10}); err == nil {
+				for _, it := range l.Items {
+					routes = append(routes, it.Route)
+				}
+			}
+			_ = st
+			return fmt.Sprintf("%d %s %v", rr.Code, resp.Code, routes)
+		}
+		base["liveBefore"] = live()
 		store := queue.NewMemoryStore()
+		if strings.HasSuffix(variant, "_validate_fail") {
+			// a message for the endpoint's current route arrives after the first backlog check, while the file is being replaced
+			fired := false
+			verifhook.Set("app.wfa.renamed", func(label string, hit int) {
+				snaps = append(snaps, snapDir(dir, "Hookaidofile", "renamed"))
+				if !fired {
+					fired = true
+					_ = store.Enqueue(queue.Envelope{ID: "late", Route: a.Routes[0].Path, Target: "pull", Payload: []byte("x")})
+				}
+			})
+		}
 		var res admin.ManagementEndpointMutationResult
-		if variant == "mgmt.delete" {
+		switch {
+		case strings.HasPrefix(variant, "mgmt.delete"):
 			res, err = rt.DeleteManagedEndpoint(cfgPath, admin.ManagementEndpointDeleteRequest{Application: "app1", EndpointName: "ep1"}, store)
-		} else {
+		case strings.HasPrefix(variant, "mgmt.move"):
+			to := a.Routes[len(a.Routes)-1].Path
+			res, err = rt.UpsertManagedEndpoint(cfgPath, admin.ManagementEndpointUpsertRequest{Application: "app1", EndpointName: "ep1", Route: to}, store)
+		default:
 			res, err = rt.UpsertManagedEndpoint(cfgPath, admin.ManagementEndpointUpsertRequest{Application: "app1", EndpointName: "ep1", Route: a.Routes[0].Path}, store)
 		}
 		base["applied"] = res.Applied
+		base["action"] = res.Action
 		switch {
 		case err != nil && len(snaps) > 0:
 			outcome, errText = "failed", err.Error()
@@ -818,6 +968,7 @@ func rlFileCase(r *rng, c int, root string, emit func(interface{}), crash bool) 
 		case !res.Applied:
 			outcome = "rejected"
 		}
+		base["liveAfter"] = live()
 		// the content the rewrite put in place is whatever the first completed replacement wrote
 		for _, s := range snaps {
 			if s.Label == "renamed" && s.Target != nil {
